@@ -4,8 +4,9 @@ from harness.canon import hx, nats
 from harness.props.bip32_common import IMPL, CLS, ORDER, rand_index, rand_seed, IDX_EDGE
 from bip_utils import Bip32KeyData
 
-LEAN_MODULES = ["BipVerif.Props.C03"]
+LEAN_MODULES = ["BipVerif.Props.C03", "BipVerif.Props.C03Group"]
 CURVES = list(CLS)
+TWO_ZERO_PATHS = []     # (curve, seed, hardened index) found by `gen`: m/i' has a private key below 2^240; `relations` walks every route to it
 
 # published vectors (BIP-32 TV1/TV3 seeds, SLIP-0010 retry vectors)
 DIRECTED = [
@@ -19,6 +20,7 @@ DIRECTED = [
 
 
 def gen(rng, tier):
+    del TWO_ZERO_PATHS[:]
     for c, seed, path in DIRECTED:
         for k in range(len(path) + 1):
             yield Case("derive", [c, seed, nats(path[:k]), k], "directed")
@@ -106,6 +108,57 @@ def gen(rng, tier):
                 found += 1
                 if found == 3:
                     break
+    # directed: the same with TWO (thorough: also three) leading zero bytes — a fixed-width re-encoding that restores one dropped byte, or
+    # pads "by one", is right on every 31-byte value and wrong from 30 bytes down (2^-16 of the children).  For each ECDSA curve: a hardened
+    # and a non-hardened child whose private key (IL + k_par) mod n is below 2^240, a child whose IL is below 2^240, and a master key below
+    # 2^240 on all four curves; all found with hashlib from the BIP-32/SLIP-0010 formulas.  Each hit is derived by the model and by the
+    # implementation alone (childpriv) and as the last and as an inner step of a path (derive), so the refusal or a short key shows wherever
+    # the child is used
+    from harness.props.bip32_common import find_child_zero_bytes, hmac512_stream
+    budget = 600000            # 2^-16 per try: the chance of coming back empty is e^-9
+    reps = 1 if tier == "quick" else 12
+    for r in range(reps):
+        for c in ("secp256k1", "nist256p1"):
+            for what, hardened in (("child", True), ("child", False), ("il", r % 2 == 0)):
+                kb = rng.randrange(1, ORDER[c]).to_bytes(32, "big")
+                cc = bytes(rng.randrange(256) for _ in range(32))
+                pub = None if hardened else CLS[c].FromPrivateKey(kb).PublicKey().RawCompressed().ToBytes()
+                idx = find_child_zero_bytes(rng, c, kb, cc, pub, hardened, 2, what, budget)
+                if idx is None:
+                    continue
+                yield Case("childpriv", [c, hx(kb), hx(cc), rng.choice([0, 1, 7, 254]), idx], "child-two-leading-zeros" if what == "child" else "il-two-leading-zeros")
+    if tier == "thorough":     # three zero bytes: 2^-24 per try, one hit (about a minute)
+        c = rng.choice(["secp256k1", "nist256p1"])
+        kb, cc = rng.randrange(1, ORDER[c]).to_bytes(32, "big"), bytes(rng.randrange(256) for _ in range(32))
+        idx = find_child_zero_bytes(rng, c, kb, cc, None, True, 3, "child", 2**26)
+        if idx is not None:
+            yield Case("childpriv", [c, hx(kb), hx(cc), 0, idx], "child-three-leading-zeros")
+    for c in CURVES:
+        for r in range(reps):
+            head = bytes(rng.randrange(256) for _ in range(rng.choice([12, 28, 60])))
+            f = hmac512_stream(keys[c], head)
+            nn = ORDER.get(c)
+            for j in range(budget):
+                il = f(j.to_bytes(4, "big"))[:32]
+                if il[0] == 0 and il[1] == 0 and (nn is None or 0 < int.from_bytes(il, "big") < nn):
+                    seed = head + j.to_bytes(4, "big")
+                    if _hmac.new(keys[c], seed, _hl.sha512).digest()[:32] == il:
+                        yield Case("master", [c, hx(seed)], "master-two-leading-zeros")
+                        yield Case("derive", [c, hx(seed), nats([2**31 + 44, rand_index(rng, None if nn else True)]), 2], "master-two-leading-zeros")
+                    break
+    # path level: a seed whose hardened child m/i' (found with hashlib from the reference master) has a private key below 2^240, derived as
+    # the last element and as an inner element of a path — every route (ChildKey chain here; FromSeedAndPath/DerivePath in `relations`)
+    for c in ("secp256k1", "nist256p1"):
+        seed = rand_seed(rng)
+        i64 = _hmac.new(keys[c], seed, _hl.sha512).digest()
+        if not 0 < int.from_bytes(i64[:32], "big") < ORDER[c]:
+            continue
+        idx = find_child_zero_bytes(rng, c, i64[:32], i64[32:], None, True, 2, "child", budget)
+        if idx is not None:
+            yield Case("derive", [c, hx(seed), nats([idx]), 1], "path-two-leading-zeros")
+            yield Case("derive", [c, hx(seed), nats([idx, rand_index(rng), rand_index(rng, False)]), 3], "path-two-leading-zeros")
+            yield Case("derive", [c, hx(seed), nats([idx, rand_index(rng, False)]), 1], "path-two-leading-zeros-public")
+            TWO_ZERO_PATHS.append((c, seed, idx))
     for i in range(30 if tier == "quick" else 600):
         c = ("ed25519", "ed25519blake2b")[i % 2]
         k = bytes(rng.randrange(256) for _ in range(32))
@@ -172,5 +225,29 @@ def relations(rng, tier, rpt):
                 rep("%s: the same child derived again from the same parent object differs after the caller converted the first one to public-only" % what,
                     "%s index=%d" % (c, idx), node_out(again), want)
                 break
+    # every route to a prescribed child hands out the prescribed key: for the hardened children with a private key below 2^240 that `gen`
+    # found, the reference key and chain code (hashlib: k = (IL + k_par) mod n as 32 bytes, c = IR) are demanded from ChildKey, DerivePath
+    # (text and path object) and FromSeedAndPath; a refusal is reported as what it is
+    import hmac as _hmac, hashlib as _hl
+    from bip_utils import Bip32PathParser
+    mkeys = {"secp256k1": b"Bitcoin seed", "nist256p1": b"Nist256p1 seed"}
+    for c, seed, idx in TWO_ZERO_PATHS:
+        i64 = _hmac.new(mkeys[c], seed, _hl.sha512).digest()
+        d = _hmac.new(i64[32:], b"\x00" + i64[:32] + idx.to_bytes(4, "big"), _hl.sha512).digest()
+        want = (((int.from_bytes(d[:32], "big") + int.from_bytes(i64[:32], "big")) % ORDER[c]).to_bytes(32, "big").hex(), d[32:].hex(), 1, idx)
+        ptxt = "m/%d'" % (idx - 2**31)
+        for what, f in (("FromSeed + ChildKey", lambda: CLS[c].FromSeed(seed).ChildKey(idx)),
+                        ("FromSeed + DerivePath(str)", lambda: CLS[c].FromSeed(seed).DerivePath(ptxt)),
+                        ("FromSeed + DerivePath(Bip32Path)", lambda: CLS[c].FromSeed(seed).DerivePath(Bip32PathParser.Parse(ptxt[2:]))),
+                        ("FromSeedAndPath", lambda: CLS[c].FromSeedAndPath(seed, ptxt))):
+            n += 1
+            try:
+                o = f()
+                got = (o.PrivateKey().Raw().ToBytes().hex(), o.ChainCode().ToBytes().hex(), int(o.Depth()), int(o.Index()))
+            except Bip32KeyError as ex:
+                got = "refused: Bip32KeyError"
+            if got != want:
+                rep("%s: the child %s (private key with two leading zero bytes) is not the one BIP-32 prescribes" % (what, ptxt),
+                    "%s seed=%s path=%s" % (c, seed.hex(), ptxt), str(got), str(want))
     rpt.extra["entry_point_equivalence_checks"] = n
     return bad[:5]
